@@ -178,3 +178,36 @@ example :
   | (k+2) => simp at hi
 
 end Cellml.Props.C08
+
+namespace Cellml.Props.C08
+open Cellml.Units
+
+variable (cx : Ctx) (env : List Def)
+
+/-! ### `Units::equivalent` is itself an equivalence relation (corollaries of C08-1 … C08-3e) -/
+
+/-- C08-3f: factor(a,a) = 1 for every defined units -/
+theorem C08_factor_self (a : Operand) (h : (opB cx env a).isSome = true) : factorLog cx env a a = some 0 := by
+  obtain ⟨x, y, hx, hy, hf⟩ := C08_factor_of_compatible cx env a a (C08_compatible_refl cx env a h)
+  rw [hx] at hy; cases hy
+  rw [hf]; congr 1; grind
+
+/-- C08-3g: `Units::equivalent` is reflexive on defined units, symmetric and transitive -/
+theorem C08_equivalent_refl (a : Operand) (h : (opB cx env a).isSome = true) : equivalent cx env a a = true :=
+  (C08_equivalent_iff cx env a a).mpr ⟨C08_compatible_refl cx env a h, C08_factor_self cx env a h⟩
+
+theorem C08_equivalent_symm (a b : Operand) (h : equivalent cx env a b = true) : equivalent cx env b a = true := by
+  obtain ⟨hc, hf⟩ := (C08_equivalent_iff cx env a b).mp h
+  refine (C08_equivalent_iff cx env b a).mpr ⟨C08_compatible_symm cx env a b hc, ?_⟩
+  have := C08_factor_inverse cx env a b 0 hf
+  simpa using this
+
+theorem C08_equivalent_trans (a b c : Operand) (h1 : equivalent cx env a b = true) (h2 : equivalent cx env b c = true) :
+    equivalent cx env a c = true := by
+  obtain ⟨hc1, hf1⟩ := (C08_equivalent_iff cx env a b).mp h1
+  obtain ⟨hc2, hf2⟩ := (C08_equivalent_iff cx env b c).mp h2
+  refine (C08_equivalent_iff cx env a c).mpr ⟨C08_compatible_trans cx env a b c hc1 hc2, ?_⟩
+  have := C08_factor_chain cx env a b c 0 0 hf1 hf2
+  rw [this]; congr 1; grind
+
+end Cellml.Props.C08
